@@ -21,7 +21,7 @@ LEVEL = "model_checking"
 
 # (N, m, how the object is first constructed): "B1" = float lists of box B1; "int" = Python int lists [-1]*N, [1]*N
 CONFIGS = [(1, 10, "B1"), (2, 3, "B1"), (3, 2, "B1"), (5, 2, "B1"), (2, 3, "int"), (5, 12, "B1"), (1, 10, "int"),
-           (2, 10, "B1"), (4, 3, "B1"), (2, 3, "ro"), (3, 2, "tuple")]
+           (2, 10, "B1"), (4, 3, "B1"), (2, 3, "ro"), (3, 2, "tuple"), (1, 10, "deferred"), (2, 3, "deferred")]
 
 
 def alphabet(N):
@@ -53,6 +53,12 @@ def alphabet(N):
         # the caller uses the arrays it got back as scratch space (sorts / overwrites them in place): they are the caller's
         ("CallerOverwritesReturnedArrays", None),
         ("SetBoundsMaybeRefused", ([b1[0][i] + 0.5 for i in range(N)], [b1[1][i] if i else b1[0][i] - 0.25 for i in range(N)])),
+        # malformed inverse queries (a point with too few / too many coordinates, a NaN coordinate, a bare number): whether
+        # the call raises or answers something, the object afterwards answers like a fresh one with its box
+        ("BadQuery", "short"),
+        ("BadQuery", "long"),
+        ("BadQuery", "nan"),
+        ("BadQuery", "scalar"),
     ]
     return ops
 
@@ -72,6 +78,18 @@ def apply(ev, op):
         for a in getattr(ev, "_harness_handed_over", []):
             a[...] = a * 0.5 + 7.0
         return None, True
+    if name == "BadQuery":
+        y = {"short": [0.3] * (ev.numberOfFloatVariables - 1), "long": [0.3] * (ev.numberOfFloatVariables + 2),
+             "nan": [float("nan")] + [0.3] * (ev.numberOfFloatVariables - 1), "scalar": 0.3}[arg]
+        import warnings
+        for fn, yy in ((ev.GetInverseImage, y), (ev.GetPreimages, np.array(y, dtype=np.double))):
+            try:
+                with warnings.catch_warnings():
+                    warnings.simplefilter("ignore")
+                    fn(yy)
+            except Exception:
+                pass
+        return "asked", True
     if name == "SetBoundsMaybeRefused":
         try:
             ev.SetBounds(arg[0], arg[1])
@@ -106,7 +124,7 @@ def show(op):
 
 def execute(N, m, seq, ops, init="B1"):
     """replay a call sequence on one fresh object, checking the oracle at every call; -> (messages, ev)"""
-    lo, up = box("B1", N) if init in ("B1", "ro", "tuple") else ([-1] * N, [1] * N)
+    lo, up = box("B1", N) if init in ("B1", "ro", "tuple", "deferred") else ([-1] * N, [1] * N)
     if init == "B1":
         lo_arr, up_arr = np.array(lo, dtype=np.double), np.array(up, dtype=np.double)
         ev = Evolvent(lo_arr, up_arr, N, m)
@@ -119,6 +137,10 @@ def execute(N, m, seq, ops, init="B1"):
         ev = Evolvent(lo_arr, up_arr, N, m)
     elif init == "tuple":
         ev = Evolvent(tuple(lo), tuple(up), N, m)
+    elif init == "deferred":
+        # dimension and density first, the box later through SetBounds (the constructor's bound arguments left at their default)
+        ev = Evolvent(numberOfFloatVariables=N, evolventDensity=m)
+        ev.SetBounds(np.array(lo, dtype=np.double), np.array(up, dtype=np.double))
     else:
         ev = Evolvent(lo, up, N, m)
     cur = (np.array(lo, dtype=float), np.array(up, dtype=float))
@@ -136,6 +158,8 @@ def execute(N, m, seq, ops, init="B1"):
                         returned[q] = (arr, arr.tobytes(), st)
                 continue
             r, untouched = apply(ev, op)
+            if op[0] == "BadQuery":
+                continue
             if op[0] == "SetBoundsMaybeRefused":
                 if r == "accepted":
                     cur = (np.array(op[1][0], dtype=float), np.array(op[1][1], dtype=float))
